@@ -5,7 +5,7 @@ id=$1; low=$(echo $id | tr A-Z a-z)
 src=/tmp/vw/$id/verif
 cd /verif
 for f in lean/PytmeModel/Model/$id*.lean lean/PytmeModel/Proofs/$id*.lean lean/PytmeModel/Props/$id*.lean lean/PytmeModel/Extracted/$id*.lean lean/DriverLib/$id*.lean \
-         harness/pv/props/$low*.py harness/pv/${low}_*.py harness/pv/faults.py corpus/${id}_* findings.d/$id.json tools/claims.d/$id.json; do
+         harness/pv/props/$low*.py harness/pv/${low}_*.py corpus/${id}_* findings.d/$id.json tools/claims.d/$id.json; do
   for g in $src/$f; do
     [ -e "$g" ] || continue
     rel=${g#$src/}
@@ -17,3 +17,5 @@ echo "--- other new/changed files in the agent copy (not merged automatically):"
 diff -rq --exclude=.lake --exclude=.build --exclude=__pycache__ --exclude=evidence --exclude=replays --exclude=.git $src /verif | grep -v "Only in /verif" | head -20 || true
 echo "--- fix commits on agent-$id:"
 git -C /repo log --oneline main..agent-$id
+# the fault-injection helper is shared by the harness but owned by C16
+if [ "$id" = "C16" ] && [ -e $src/harness/pv/faults.py ]; then cp -v $src/harness/pv/faults.py harness/pv/faults.py; fi
